@@ -23,7 +23,10 @@ def run_case(case):
         carried = 0
         for ci in range(rng.choice([2, 3, 3, 4, 5])):
             for _ in range(rng.randrange(1, 6)):
-                sc.do_edit()
+                if rng.random() < 0.12:
+                    sc.do_create()      # new, still untracked files (written by an agent or a person) take part in the splits too
+                else:
+                    sc.do_edit()
             kind = rng.choice(["files", "hunks", "hunks", "paths", "all"])
             before = sc.head()
             if kind == "files":
